@@ -46,6 +46,7 @@ OPTIONAL_FEATURES = frozenset({
     "allof_refine",       # ... one property declared twice with DIFFERENT compatible schemas (length/range vs enum, number vs enum)
     "not",                # {"type":"string","not":{"enum":[...]}} deny lists
     "not_untyped",        # {"not":{"enum":[...]}} as in the repository fixture (wider than the Rust type)
+    "null_props",         # properties of type null (Rust `()`), required or not
     "map_keys",           # maps with constrained keys (propertyNames / one patternProperties entry) and any-valued maps
     "defaults",           # valid defaults on properties and named types
     "invalid_defaults",   # some defaults are NOT valid for their schema (pointers in meta["invalid_defaults"])
@@ -507,7 +508,7 @@ class _Universe:
 
     def nullable(self, t):
         k = t["k"]
-        if k in ("opt", "any"): return True
+        if k in ("opt", "any", "null"): return True
         if k == "ref":
             tgt = self.defs.get(t["name"])
             return True if tgt is None else self.nullable(tgt)
@@ -556,6 +557,8 @@ class _Universe:
                 elif what == "min": t["min"] = max(a, 1)
                 else: t["max"] = b
                 if pmax is not None and t["min"] is not None: t["min"] = min(t["min"], pmax)
+            # a format typify does not recognise next to string constraints (an annotation for the validator used here)
+            if self.has("string_formats") and self.coin(0.3): t["fmt"] = r.choice(["hostname", "email", "uri", "regex", "password"])
         return t
 
     def t_strenum(self):
@@ -666,6 +669,8 @@ class _Universe:
                 t = self.t_opt(depth, True)
             elif st == "optional" and self.has("option") and self.coin(0.5):
                 t = self.t_opt(depth, True)
+            elif self.has("null_props") and st in ("required", "optional") and self.coin(0.12):
+                t = {"k": "null"}
             else:
                 t = self.t_any(depth, guarded=False, allow_opt=False)
                 if guarded and self.has("recursion") and self.coin(0.3):
@@ -925,6 +930,7 @@ class _Printer:
         k = t["k"]
         if k == "raw": return copy.deepcopy(t["schema"])
         if k == "bool": return {"type": "boolean"}
+        if k == "null": return {"type": "null"}
         if k == "int":
             s = {"type": "integer"}
             if t["fmt"]: s["format"] = t["fmt"]
